@@ -60,7 +60,8 @@ Proof.
               1 <= go_year (t_time t) <= 9999).
   { intros t0. unfold in_range. destruct ((1 <=? go_year (t_time t0)) && (go_year (t_time t0) <=? 9999)) eqn:E;
       cbn [negb]; [|discriminate]. intros Q. inversion Q; subst. lia. }
-  destruct (rank p <=? 3); [apply G|]. destruct (off =? 0); apply G.
+  destruct (rank p <=? 3); [apply G|]. destruct ((off <=? -1440) || (1440 <=? off)); [discriminate|].
+  destruct (off =? 0); apply G.
 Qed.
 
 Lemma dfc_coarse y mo d : 1 <= mo <= 12 -> 1 <= d <= 31 -> -2147483648 < y < 2147483648 ->
